@@ -310,7 +310,7 @@ fn subject<R: Relation + Send + Sync>(
         }
         // proving key wrapper
         let pkb = mpk_bytes(&pk, *fmt);
-        if pkb.len() < 600_000 || !ctx.quick() {
+        if pkb.len() < 1_500_000 {
             let inner_pk = pk.pk().to_bytes(*fmt);
             let vklen = vk.vk().to_bytes(*fmt).len();
             let lens = |b: &[u8]| -> Option<(String, usize)> {
